@@ -20,6 +20,10 @@
 (*                       the lattice that fits the instance's configuration, in any order, the same    *)
 (*                       shape (the same relay, key, validator, file) again and again, well-formed      *)
 (*                       after degenerate and degenerate after well-formed;                             *)
+(*   Aux(c, class)       the environment answers an AUXILIARY request of call c (the node version        *)
+(*                       request behind a {{CLIENT}} marker) with a value or with a fault, as chosen by     *)
+(*                       the input of that call - per call, so a history mixes faults and values at the      *)
+(*                       same node, and a fault may arrive next to another call in flight;                   *)
 (*   Use / Return / Undeliverable / DecoderPanic  as in Robustness.tla, per call;                       *)
 (* and, where production OVERLAPS calls on the object (Overlaps: scheduler jobs of neighbouring slots,  *)
 (* head events of two nodes, REST requests of the beacon nodes, the periodic fetch job, the auction of  *)
@@ -68,32 +72,43 @@ Overlaps(ep) == ep \in LongLived
 (*   graffiti       fallback, loc, use (who consumes the provider); the file content is per call          *)
 (*   builderbid     strat; relay address, relay key, relay answer, second relay are per call (they come   *)
 (*                  with the proposer configuration of every auction)                                      *)
-(*   proposalbest   n, clen (the nodes and what they are called)                                          *)
-(*   proposer       whether an auctioneer / a graffiti provider is configured at all                      *)
+(*   proposalbest   strat, n, clen (the strategy, the nodes and what they are called) and, per node,       *)
+(*                  whether the provider implements the optional NodeClientProvider interface               *)
+(*   proposer       whether an auctioneer / a graffiti provider is configured at all, whether the provider  *)
+(*                  implements the optional interface                                                       *)
 (*   aggregator     account (the accounts provider);  submitclassify  server (the node's software)        *)
 InstDims(ep) ==
     CASE ep = "execservice" -> {"source"}
       [] ep = "graffiti" -> {"fallback", "loc", "use"}
       [] ep = "builderbid" -> {"strat"}
-      [] ep = "proposalbest" -> {"n", "clen"}
+      [] ep = "proposalbest" -> {"strat", "n", "clen"}
       [] ep = "aggregator" -> {"account"}
       [] ep = "submitclassify" -> {"server"}
       [] OTHER -> {}
 
+Absent(x) == x \in {"absent", "na"}       \* no optional interface behind this provider (or no such provider)
 SameInstance(ep, s, t) ==
     /\ \A d \in InstDims(ep) : s[d] = t[d]
     /\ ep = "proposer" => /\ (s.auction = "none") = (t.auction = "none")
                           /\ (s.graffiti = "none") = (t.graffiti = "none")
+                          /\ Absent(s.nodeclient) = Absent(t.nodeclient)
+    /\ ep = "graffiti" => Absent(s.nodeclient) = Absent(t.nodeclient)
+    /\ ep = "proposalbest" => /\ Absent(s.nodeclient) = Absent(t.nodeclient)
+                              /\ Absent(s.nodeclient1) = Absent(t.nodeclient1)
 
 (* The PROBE input of the configuration of shape s: the well-formed member of the lattice.               *)
 ProbeOf(ep, s) ==
     CASE ep = "execservice" -> [doc |-> "valid2", source |-> s.source, prior |-> "none", addr |-> "good", pk |-> "none"]
-      [] ep = "graffiti" -> [file |-> "one", fallback |-> s.fallback, loc |-> s.loc, use |-> s.use]
+      [] ep = "graffiti" -> [file |-> "one", fallback |-> IF s.nodeclient = "absent" THEN "none" ELSE s.fallback, loc |-> s.loc, use |-> s.use,
+                             nodeclient |-> IF Absent(s.nodeclient) THEN s.nodeclient ELSE "ok"]
       [] ep = "builderbid" -> [strat |-> s.strat, addr |-> "good", bid |-> "valid", second |-> "none", pkcfg |-> "none"]
-      [] ep = "proposalbest" -> [graffiti |-> IF s.clen = "10" THEN "plain" ELSE "client", clen |-> s.clen,
-                                 nodeclient |-> "ok", proposal |-> "ok", n |-> s.n]
+      [] ep = "proposalbest" -> [strat |-> s.strat, graffiti |-> IF s.clen = "10" THEN "plain" ELSE "client", clen |-> s.clen,
+                                 nodeclient |-> IF Absent(s.nodeclient) THEN s.nodeclient ELSE "ok",
+                                 nodeclient1 |-> IF Absent(s.nodeclient1) THEN s.nodeclient1 ELSE "ok",
+                                 proposal |-> "ok", n |-> s.n]
       [] ep = "proposer" -> [auction |-> IF s.auction = "none" THEN "none" ELSE "won", ver |-> "deneb", blinded |-> "n",
-                             body |-> "valid", unblind |-> "ok", graffiti |-> IF s.graffiti = "none" THEN "none" ELSE "short"]
+                             body |-> "valid", unblind |-> "ok", graffiti |-> IF s.graffiti = "none" THEN "none" ELSE "short",
+                             nodeclient |-> IF Absent(s.nodeclient) THEN s.nodeclient ELSE "ok"]
       [] ep = "attester" -> [body |-> "valid", slot |-> "64", duty |-> "one"]
       [] ep = "aggregator" -> [body |-> "valid", slot |-> "64", account |-> s.account]
       [] ep = "syncmessenger" -> [body |-> "valid", accounts |-> "all", slot |-> "64"]
@@ -134,7 +149,7 @@ ASSUME \A ep \in EPs : \A s \in Lattice[ep] :
 -----------------------------------------------------------------------------
 VARIABLES inst,       \* the long-lived object: NoInst or [ep, of] (of = the probe shape: names its configuration)
           ncalls,     \* calls started on it so far
-          inflight,   \* call number -> [stable, uses, gated, done]: started and not yet returned
+          inflight,   \* call number -> [stable, uses, gated, aux, done, faulted]: started and not yet returned
           ended,      \* the set of [stable, outcome] with which calls of the history have ended
           fresh,      \* what the probe input yields on a FRESH instance of this configuration ("none": not observed)
           alive       \* the process keeps running
@@ -165,7 +180,12 @@ Probe(o) ==
 
 (* What the model keeps of an input: whether its outcome is pinned (Stable), which consumers belong to    *)
 (* the call (Uses), whether a library decoder stands between the driver and Vouch (Gated).                 *)
-KindOf(ep, of, s) == [stable |-> Stable(ep, of, s), uses |-> Uses(ep, s), gated |-> Gated(ep, s)]
+(* ... and what the environment has chosen for its auxiliary requests: "none" (it has none), "values"     *)
+(* (every one is answered with a value), "faults" (at least one is answered with a fault).                 *)
+AuxKinds == {"none", "values", "faults"}
+AuxKind(ep, s) == IF AuxRequests(ep, s) = {} THEN "none"
+                  ELSE IF \E a \in AuxRequests(ep, s) : a.answer \in AuxFaults THEN "faults" ELSE "values"
+KindOf(ep, of, s) == [stable |-> Stable(ep, of, s), uses |-> Uses(ep, s), gated |-> Gated(ep, s), aux |-> AuxKind(ep, s)]
 
 (* the kinds of input every configuration of every entry point can be fed (evaluated once)                 *)
 Kinds == [ep \in LongLived |->
@@ -182,15 +202,29 @@ CallKind(k) ==
     /\ ncalls < MaxCalls
     /\ Cardinality(InFlight) < (IF Overlaps(inst.ep) THEN MaxInFlight ELSE 1)
     /\ ncalls' = ncalls + 1
-    /\ inflight' = [c \in InFlight \cup {ncalls + 1} |->
-                        IF c = ncalls + 1 THEN [stable |-> k.stable, uses |-> k.uses, gated |-> k.gated, done |-> {}]
-                                          ELSE [inflight[c] EXCEPT !.stable = FALSE]]     \* see above
+    /\ LET envs == {inflight[c].aux : c \in InFlight} \cup {k.aux}
+           \* the nodes are SHARED by the calls in flight: what one call's input makes them answer to auxiliary
+           \* requests, they may answer to the requests of the call next to it as well
+           shared == IF "faults" \in envs THEN "faults" ELSE IF "values" \in envs THEN "values" ELSE "none"
+       IN  inflight' = [c \in InFlight \cup {ncalls + 1} |->
+                        IF c = ncalls + 1 THEN [stable |-> k.stable, uses |-> k.uses, gated |-> k.gated, aux |-> shared,
+                                                done |-> {}, faulted |-> FALSE]
+                                          ELSE [inflight[c] EXCEPT !.stable = FALSE, !.aux = shared]]     \* see above
     /\ UNCHANGED <<inst, ended, fresh, alive>>
 
 Call(s) ==
     /\ inst # NoInst
     /\ s \in Lattice[inst.ep] /\ SameInstance(inst.ep, s, inst.of)
     /\ CallKind(KindOf(inst.ep, inst.of, s))
+
+(* An auxiliary request of call c is answered with a value or a fault: what the input of c chose or - the  *)
+(* nodes being shared (CallKind) - what the input of a call that was in flight next to it chose.  Whatever   *)
+(* the answer, call c goes on to one of its allowed ends.                                                   *)
+Aux(c, cl) ==
+    /\ c \in InFlight /\ cl \in AuxClasses
+    /\ inflight[c].aux # "none" /\ (cl = "fault" => inflight[c].aux = "faults")
+    /\ inflight' = [inflight EXCEPT ![c].faulted = @ \/ (cl = "fault")]
+    /\ UNCHANGED <<inst, ncalls, ended, fresh, alive>>
 
 Use(c, u, o) ==
     /\ c \in InFlight
@@ -237,6 +271,7 @@ Next ==
     \/ \E ep \in EPs : \E s \in Lattice[ep] : NewInstance(ep, s)
     \/ \E o \in Outcomes : Probe(o)
     \/ \E k \in (IF inst = NoInst THEN {} ELSE Kinds[inst.ep][inst.of]) : CallKind(k)   \* = \E s : Call(s)
+    \/ \E c \in InFlight : \E cl \in AuxClasses : Aux(c, cl)
     \/ \E c \in InFlight : \E u \in UseNames : \E o \in Outcomes : Use(c, u, o)
     \/ \E c \in InFlight : \E o \in Outcomes : Return(c, o)
     \/ \E c \in InFlight : Undeliverable(c)
@@ -257,6 +292,7 @@ TypeOK ==
     /\ InFlight \subseteq 1..MaxCalls
     /\ \A c \in InFlight : /\ inflight[c].stable \in BOOLEAN /\ inflight[c].gated \in BOOLEAN
                            /\ inflight[c].done \subseteq inflight[c].uses /\ inflight[c].uses \subseteq UseNames
+                           /\ inflight[c].aux \in AuxKinds /\ inflight[c].faulted \in BOOLEAN
     /\ ended \subseteq [stable : BOOLEAN, outcome : Ends]
     /\ fresh \in Outcomes \cup {"none"}
     /\ inst = NoInst => ncalls = 0 /\ fresh = "none"
@@ -266,6 +302,9 @@ KeepsRunning == alive
 
 \* C16: every call ended ok / error / fallback (or its input was not deliverable)
 EndsProperly == \A e \in ended : e.outcome \in Ends
+
+\* C16 for the auxiliary requests: a fault answered to any call in flight leaves the process running
+AuxFaultsSurvived == (\E c \in InFlight : inflight[c].faulted) => alive
 
 \* the history is invisible: a stable input yields, at any point of any history and next to any
 \* overlapping call, what it yields on a fresh instance
